@@ -60,6 +60,15 @@ func spoilsOf(line []byte, full bool, r rng) []spoil {
 		copy(neg[18:22], []byte("-001"))
 		out = append(out, spoil{neg, "image reference key length -001", "short"})
 	}
+	// the image view data record has its own decoder with its own length checks (fixed part 105 bytes, then
+	// three sections sized by embedded lengths): cut inside the fixed part beyond column 80, and one byte short
+	if string(line[:2]) == "52" {
+		for _, n := range []int{80, 92, 104, len(line) - 1} {
+			if n < len(line) && n >= 80 {
+				out = append(out, spoil{cp()[:n], fmt.Sprintf("image view data cut to %d bytes", n), "short52"})
+			}
+		}
+	}
 	u := cp()
 	u[0], u[1] = '7', '7'
 	out = append(out, spoil{u, "unknown record type 77", "unknown-type"})
@@ -135,14 +144,14 @@ func runC18(cfg *config) *Report {
 		good := strings.Split(dumpFile(&gf), "~")
 		for k := range lines {
 			for _, sp := range spoilsOf(lines[k], cfg.tier == "thorough", r) {
-				if sp.cls != "short" && sp.cls != "unknown-type" && !standaloneInvalid(sp.line) {
+				if sp.cls != "short" && sp.cls != "short52" && sp.cls != "unknown-type" && !standaloneInvalid(sp.line) {
 					rep.count("spoil-still-valid")
 					continue
 				}
 				ls := append([][]byte{}, lines...)
 				ls[k] = sp.line
 				cases = append(cases, kase{ls, k, sp, good, encCfg{}})
-				if sp.cls == "short" || sp.cls == "unknown-type" || r.Intn(5) == 0 {
+				if sp.cls == "short" || sp.cls == "short52" || sp.cls == "unknown-type" || r.Intn(5) == 0 {
 					// the same spoiled file in length-prefixed framing (a record cut to 0 bytes is a zero prefix)
 					cases = append(cases, kase{ls, k, sp, good, encCfg{LP: true}})
 				}
